@@ -14,7 +14,7 @@ Section Frame.
   Hypothesis Q : is_request o = true.
   Hypothesis E : step s o = (s', u).
 
-  Lemma frame_pick : forall e', op_env o <> Some e' -> exists e, e <> e' /\ framed e s s' u.
+  Lemma frame_pick : forall e', op_env o <> Some e' -> exists e, e <> e' /\ framed2 e s s' u.
   Proof.
     intros e' Hne. pose proof (reachable_inv s R) as I.
     destruct (step_spec s o s' u I W E) as [_ F]. specialize (F Q). unfold frame_of in F.
@@ -26,10 +26,8 @@ Section Frame.
   Lemma frame_tasks : forall t e', In t (s_roster s) -> t_owner t = Some e' -> t_idok t = true ->
                                    op_env o <> Some e' -> In t (s_roster s').
   Proof.
-    intros t e' Hin Ho Hk Hne. destruct (frame_pick e' Hne) as [e [Hd [new [Hn [Hnd [Hm _]]]]]].
-    eapply emoves_keep; [exact Hm|apply in_or_app; left; exact Hin| |].
-    - eapply locked_intro; eauto.
-    - eapply owner_is_other; eauto.
+    intros t e' Hin Ho Hk Hne. destruct (frame_pick e' Hne) as [e [Hd [F1 _]]].
+    eapply F1; eauto.
   Qed.
 
   Lemma frame_touch : forall k, In k (ks u) -> forall t e', In t (s_roster s) -> t_id t = k ->
@@ -37,9 +35,8 @@ Section Frame.
   Proof.
     intros k Hk t e' Hin Eid Ho Hok.
     destruct (option_eq_dec_N (op_env o) (Some e')) as [Heq|Hne]; [exact Heq|exfalso].
-    destruct (frame_pick e' Hne) as [e [Hd [new [Hn [Hnd [Hm [_ Ht]]]]]]].
-    apply Hd. symmetry. eapply (touched_ok e (s_roster s ++ new) k Hnd (Ht k Hk) t e'); auto.
-    apply in_or_app. left. exact Hin.
+    destruct (frame_pick e' Hne) as [e [Hd [_ [F2 _]]]].
+    apply Hd. symmetry. eapply F2; eauto.
   Qed.
 
   Lemma frame_kills : forall k, In k (o_kills u) -> forall t e', In t (s_roster s) -> t_id t = k ->
@@ -52,8 +49,8 @@ Section Frame.
 
   Lemma frame_envs : forall x, In x (s_envs s) -> op_env o <> Some (e_id x) -> In x (s_envs s').
   Proof.
-    intros x Hin Hne. destruct (frame_pick (e_id x) Hne) as [e [Hd [new [Hn [Hnd [Hm [Hk _]]]]]]].
-    apply Hk; auto.
+    intros x Hin Hne. destruct (frame_pick (e_id x) Hne) as [e [Hd [_ [_ F3]]]].
+    apply F3; auto.
   Qed.
 End Frame.
 
@@ -169,6 +166,8 @@ Proof.
   { intros x sm cmds l X1 X2 X3 X4 Hc. apply create_tail_good in Hc. destruct Hc as [[_ [B [C _]]] _].
     split; [congruence|]. right. exists x. rewrite X1, X3 in B. auto. }
   destruct (N.eqb (c_fail c) 4).
+  { eapply T; [| | | |exact H]; reflexivity. }
+  destruct (N.eqb (c_fail c) 6).
   { eapply T; [| | | |exact H]; reflexivity. }
   destruct (existsb _ (c_roles c) || N.eqb (c_fail c) 5).
   { eapply T; [| | | |exact H]; reflexivity. }
@@ -826,11 +825,11 @@ Proof.
 Qed.
 
 Lemma finish_nothing e c s s' u ad :
-  inv s -> assocN e (s_snaps s) = Some ad ->
+  inv s -> assocN e (s_snaps s) = Some ad -> c_fail c <> 6 ->
   finish e c s = (s', u) -> o_rc u = 1 ->
   (nothing_left e s' /\ launched_killed e c u) /\ o_pend u = 0.
 Proof.
-  intros I Ea. unfold finish. rewrite Ea. pose proof (assocN_In _ _ _ Ea) as Hp.
+  intros I Ea H6. unfold finish. rewrite Ea. pose proof (assocN_In _ _ _ Ea) as Hp.
   assert (Rfree : forall t, In t (s_roster s) -> fst (t_id t) <> e).
   { intros t Ht. apply (inv_snap_r s I (e, ad) t Hp Ht). }
   assert (Efree : forall y, In y (s_envs s) -> e_id y <> e).
@@ -855,6 +854,7 @@ Proof.
     - cbn [with_envs s_envs s0]. apply find_env_app_new; auto.
     - cbn. discriminate.
     - split; [|exact P0]. split; [exact A|]. intros id Hl. rewrite B in Hl. contradiction. }
+  destruct (N.eqb (c_fail c) 6) eqn:E6; [apply N.eqb_eq in E6; contradiction|].
   set (x1 := set_bound x0).
   set (new := map (launch_task e) (task_iroles x1)).
   assert (Hids : map t_id new = bound_tids x1).
@@ -905,11 +905,11 @@ Proof.
 Qed.
 
 Lemma create_nothing_behind s e c s' u :
-  reachable s -> wf_op s (OCreate e c) = true ->
+  reachable s -> wf_op s (OCreate e c) = true -> c_fail c <> 6 ->
   step s (OCreate e c) = (s', u) -> o_rc u = 1 ->
   (nothing_left e s' /\ launched_killed e c u) /\ o_pend u = 0.
 Proof.
-  intros R W E Hrc. pose proof (reachable_inv s R) as I.
+  intros R W H6 E Hrc. pose proof (reachable_inv s R) as I.
   cbn [wf_op] in W. apply andb_true_iff in W. destruct W as [W _]. apply negb_true_iff in W.
   pose proof (usedb_false s e W) as [U1 [U2 U3]].
   cbn [step] in E. destruct (N.eqb (c_fail c) 1).
@@ -924,28 +924,66 @@ Proof.
   { unfold snap in Es. destruct (cleanup (s_roster s)). injection Es as <- _. cbn [s_snaps assocN].
     rewrite N.eqb_refl. reflexivity. }
   cbn [out_seq o_rc] in Hrc.
-  destruct (finish_nothing e c s1 s2 o2 _ I1 Ea Ef Hrc) as [[A B] P0]. split; [|exact P0]. split; [exact A|].
+  destruct (finish_nothing e c s1 s2 o2 _ I1 Ea H6 Ef Hrc) as [[A B] P0]. split; [|exact P0]. split; [exact A|].
   intros id Hl. cbn [out_seq o_launch o_kills] in *. apply in_or_app. right.
   apply B; auto. apply in_app_or in Hl. destruct Hl as [Hl|Hl]; [|exact Hl].
   unfold snap in Es. destruct (cleanup (s_roster s)). injection Es as _ <-. contradiction.
 Qed.
 
 Lemma finish_nothing_behind s e c s' u :
-  reachable s -> assocN e (s_snaps s) <> None ->
+  reachable s -> assocN e (s_snaps s) <> None -> c_fail c <> 6 ->
   step s (OFinish e c) = (s', u) -> o_rc u = 1 ->
   (nothing_left e s' /\ launched_killed e c u) /\ o_pend u = 0.
 Proof.
-  intros R Ha E Hrc. pose proof (reachable_inv s R) as I.
+  intros R Ha H6 E Hrc. pose proof (reachable_inv s R) as I.
   destruct (assocN e (s_snaps s)) as [ad|] eqn:Ea; [|contradiction].
   cbn [step] in E. eapply finish_nothing; eauto.
 Qed.
 
-Lemma failed_creation_leaves_nothing_holds : failed_creation_leaves_nothing.
-Proof. intros s e c s' u R W E Hrc. eapply create_nothing_behind; eauto. Qed.
-
 Lemma failed_creation_cancels_calls s e c s' u :
-  reachable s -> wf_op s (OCreate e c) = true -> step s (OCreate e c) = (s', u) -> o_rc u = 1 -> o_pend u = 0.
-Proof. intros R W E Hrc. eapply create_nothing_behind; eauto. Qed.
+  reachable s -> wf_op s (OCreate e c) = true -> c_fail c <> 6 ->
+  step s (OCreate e c) = (s', u) -> o_rc u = 1 -> o_pend u = 0.
+Proof. intros R W H6 E Hrc. eapply create_nothing_behind; eauto. Qed.
+
+(* ---- partial deployment failure (c_fail = 6): the retried deployment *)
+Definition pd_spec : cspec :=
+  mkSpec [0] 6 [mkRole RPlain true 0 false; mkRole RPlain false 0 false].
+
+(* the unchanged code: the tasks of attempts 1 and 2 are launched, in no roster, never KILLed *)
+Lemma retried_deployment_leaks :
+  wf_op st0 (OCreate 0 pd_spec) = true /\
+  let '(s', u) := step st0 (OCreate 0 pd_spec) in
+  o_rc u = 1 /\ mem_tid (0, 0) (o_launch u) = true /\ mem_tid (0, 0) (o_kills u) = false /\
+  existsb (fun t => tid_eqb (t_id t) (0, 0)) (s_roster s') = false /\
+  (* ... while those of the last attempt are in the roster, unowned, and the next cleanup KILLs them *)
+  map t_id (s_roster s') = [(0, 4); (0, 5)] /\ forallb (fun t => negb (is_locked t)) (s_roster s') = true /\
+  o_kills (snd (step s' OCleanup)) = [(0, 4); (0, 5)].
+Proof. vm_compute. repeat split; reflexivity. Qed.
+
+Lemma failed_creation_leaves_nothing_refuted : ~ failed_creation_leaves_nothing.
+Proof.
+  intro H. destruct retried_deployment_leaks as [W L].
+  destruct (step st0 (OCreate 0 pd_spec)) as [s' u] eqn:E. destruct L as [Hrc [Hl [Hk [Hr _]]]].
+  destruct (H st0 0 pd_spec s' u (ex_intro _ [] (conj eq_refl eq_refl)) W E Hrc) as [_ Hh].
+  destruct (Hh (0, 0) (proj1 (mem_tid_In _ _) Hl)) as [X|[t [Ht [Eid _]]]].
+  - apply mem_tid_In in X. rewrite Hk in X. discriminate.
+  - rewrite <- not_true_iff_false in Hr. apply Hr. apply existsb_exists. exists t. split; [exact Ht|].
+    rewrite Eid. apply tid_eqb_refl.
+Qed.
+
+Lemma failed_creation_partial s e c s' u :
+  reachable s -> wf_op s (OCreate e c) = true -> c_fail c <> 6 ->
+  step s (OCreate e c) = (s', u) -> o_rc u = 1 ->
+  nothing_left e s' /\ launched_killed e c u.
+Proof. intros R W H6 E Hrc. eapply create_nothing_behind; eauto. Qed.
+
+(* "tasks that never became owned stay unowned and fall to the next cleanup" *)
+Lemma unowned_falls_to_cleanup s t :
+  In t (s_roster s) -> is_locked t = false -> In (t_id t) (o_kills (snd (step s OCleanup))).
+Proof.
+  intros Hin Hl. cbn [step]. destruct (cleanup (s_roster s)) as [r' k] eqn:Ec. cbn [snd o_kills].
+  replace k with (snd (cleanup (s_roster s))) by (rewrite Ec; reflexivity). apply cleanup_complete; auto.
+Qed.
 
 (* a status update from the master changes nothing: no lock, no owner, no listing entry *)
 Lemma master_update_changes_nothing s : step s ORecon = (s, out_rc 0).
